@@ -156,7 +156,9 @@ def run_harness(name, target_dir, unwind_override=None, cap_s=600, mem_gb=6, pla
     cmd += ["--harness", name, "--exact"]
     t0 = time.time()
     # limit address space of the whole process group; CBMC is the big one
-    pre = "ulimit -v %d; exec " % (mem_gb * 1024 * 1024)
+    # mem_gb is the resident-memory allowance used for scheduling; the address-space limit is
+    # looser (CBMC maps far more than it touches)
+    pre = "ulimit -v %d; exec " % (int(mem_gb * 2.5) * 1024 * 1024)
     sh = pre + " ".join("'%s'" % c for c in cmd)
     p = subprocess.Popen(["bash", "-c", sh], cwd=KANI_CRATE, env=env_offline(),
                          stdout=subprocess.PIPE, stderr=subprocess.STDOUT,
@@ -221,7 +223,7 @@ def parse_traces(out):
 def run_traces(name, target_dir, cap_s=1800, mem_gb=8):
     cmd = ["cargo", "kani", "--target-dir", target_dir] + KANI_FLAGS + [
         "-Z", "unstable-options", "--harness", name, "--exact", "--output-format", "old", "--cbmc-args", "--trace"]
-    pre = "ulimit -v %d; exec " % (mem_gb * 1024 * 1024)
+    pre = "ulimit -v %d; exec " % (int(mem_gb * 2.5) * 1024 * 1024)
     sh = pre + " ".join("'%s'" % c for c in cmd)
     p = subprocess.Popen(["bash", "-c", sh], cwd=KANI_CRATE, env=env_offline(), stdout=subprocess.PIPE,
                          stderr=subprocess.STDOUT, start_new_session=True, text=True, errors="replace")
